@@ -316,6 +316,34 @@ theorem alloc_ids_fresh (evs : List Ev) (hd : Disciplined Mgr.init [] evs) :
   have ha := disciplined_admissible idInv_init evs hd
   ⟨ha, evs, ha, rfl⟩
 
+/-- **A scene whose creation failed never becomes live**: when the allocation request of
+`SpawnScene` fails or is never answered, the world is exactly what it was (only the scene id is
+used up); when it succeeds, the history stays within the hypothesis (a fresh id is confirmed once). -/
+theorem failed_spawn_registers_nothing (m : Mgr) (cfg svc : Nat) (r : Option Reply) (hr : r ≠ some .ok) :
+    (m.run (spawnEvents m cfg svc r)).world = m.world ∧
+    (m.run (spawnEvents m cfg svc r)).services = m.services ∧
+    (m.run (spawnEvents m cfg svc r)).nextId = m.nextId + 1 := by
+  cases r with
+  | none => exact ⟨rfl, rfl, rfl⟩
+  | some x => cases x with
+    | ok => exact absurd rfl hr
+    | err => exact ⟨rfl, rfl, rfl⟩
+
+theorem spawn_keeps_discipline (m : Mgr) (p : List Nat) (cfg svc : Nat) (r : Option Reply) :
+    Disciplined m p (spawnEvents m cfg svc r) := by
+  cases r with
+  | none => exact trivial
+  | some x => cases x with
+    | ok => exact ⟨List.mem_cons_self, trivial⟩
+    | err => exact trivial
+
+/-- without the `return` after the error (seeded mutation) a failed request yields a live scene -/
+theorem spawn_without_return_registers_failed :
+    ((Mgr.init.refresh 1 0).run (spawnEventsNoReturn (Mgr.init.refresh 1 0) 100 1 (some .err))).world.scenes
+      = [⟨1, 100, 0, 1⟩] ∧
+    ((Mgr.init.refresh 1 0).run (spawnEvents (Mgr.init.refresh 1 0) 100 1 (some .err))).world.scenes = [] := by
+  decide
+
 /-- **The periodic check removes exactly the scenes of the services it declares lost**
 (and frees exactly their lines); which services those are does not depend on the
 order in which the service map is visited. -/
